@@ -874,7 +874,12 @@ pub fn load(
 
         m.download.clone_from(&module.download);
         let srcdir = if let Some(download) = &m.download {
-            let srcdir = download.srcdir(build_dir, &m);
+            // the download (and patch) statements write their tag file into the module's
+            // source directory: an explicit "srcdir:" moves it along
+            let srcdir = module
+                .srcdir
+                .as_ref()
+                .map_or_else(|| download.srcdir(build_dir, &m), Utf8PathBuf::from);
             let tagfile = download.tagfile(&srcdir);
 
             m.add_build_dep_file(&tagfile);
